@@ -413,10 +413,17 @@ func (t *tlcreate) do(cs *connState, uid UID) (*rlcreate, error) {
 		}
 		ref.pathNode.addChild(newRef, t.Name)
 		ref.IncRef() // Acquire parent reference.
+
+		// Hold a reference of our own until the fid is in the table (as
+		// doWalk does): a rename that finds a fidRef without references in
+		// the path tree takes it for a dying one and drops it from the tree
+		// without moving it.
+		newRef.IncRef()
 		return nil
 	}); err != nil {
 		return nil, err
 	}
+	defer newRef.DecRef()
 
 	verifPoint("tlcreate:registered-not-inserted")
 
